@@ -428,16 +428,29 @@ def findNode (id : Nat) (x : Node K V) : Option (Node K V) := (pathTo id x).map 
 
 def posAt (x : Node K V) (i : Nat) : Option (Pos K) := (x.kvs[i]?).map fun kv => ⟨x.id, i, kv.1⟩
 
-/-- `cursor.lost()`. A node that is no longer in the tree was unlinked by `mergeTwo` (which sets its
-`n` to 0, `Gen.mergeZeroesRight`) or is a collapsed root (whose `n` is 0). -/
+/-- `n` of a node object that is no longer in the tree: it was unlinked by `mergeTwo`, which sets its `n` to 0
+(`Gen.mergeZeroesRight`; a collapsed root has `n = 0` anyway). Were that statement missing the dead node would
+keep its old contents: modelled as "still holds the cursor's key at the cursor's index". -/
+def retiredN (i : Nat) : Int := if mergeZeroesRight then 0 else (i : Int) + 1
+
+/-- `cursor.lost()` of a cursor with `curr != nil`. -/
 def lostAt (cmp : K → K → Int) (t : Tree K V) (c : Cursor K) : Bool :=
   match c.pos with
   | none => lost c.gen t.gen false 0 0 0
   | some p =>
     match findNode p.id t.root with
-    | none => lost c.gen t.gen true p.i 0 0
+    | none => lost c.gen t.gen true p.i (retiredN p.i) 0
     | some x =>
       lost c.gen t.gen true p.i x.n (match x.kvs[p.i]? with | some kv => cmp p.k kv.1 | none => 0)
+
+/-- `cursor.lost()` of a cursor with `curr == nil` **as the Go code evaluates it**: the expression must not
+consult `c.curr.n` / `c.curr.keys[c.i]` (a nil dereference). The regenerated expression `lost` is evaluated
+with `hasCurr = false` for different would-be values of `n` and of the comparison: if its outcome depends on
+them, the code reads through the nil pointer — the guard `c.curr != nil &&` is what prevents that. -/
+def lostDerefsNil (cgen tgen : Int) : Bool :=
+  !(lost cgen tgen false 0 0 0 == lost cgen tgen false 0 1 0 &&
+    lost cgen tgen false 0 0 0 == lost cgen tgen false 0 1 1 &&
+    lost cgen tgen false 0 0 0 == lost cgen tgen false 0 0 1)
 
 def climbNext : List (Node K V × Nat) → Option (Pos K)
   | [] => none
@@ -526,7 +539,7 @@ def seekWith (step : Int → Bool) (fwd : Bool) (cmp : K → K → Int) (t : Tre
   | (c', true) =>
     match c'.pos with
     | none => c'
-    | some p => if step (cmp k p.k) then (if fwd then stepFwd cmp t c' else stepBwd cmp t c') else c'
+    | some p => if step (cmp k p.k) && seekStepCalls then (if fwd then stepFwd cmp t c' else stepBwd cmp t c') else c'
 
 def seekFirstGreaterOrEqual (cmp : K → K → Int) := seekWith (K := K) (V := V) seekFirstGreaterOrEqualStep true cmp
 def seekFirstGreater (cmp : K → K → Int) := seekWith (K := K) (V := V) seekFirstGreaterStep true cmp
@@ -548,7 +561,7 @@ def cursorNext (cmp : K → K → Int) (t : Tree K V) (c : Cursor K) : Cursor K 
   match c.pos with
   | none => c
   | some p =>
-    if lostAt cmp t c then seekFirstGreater cmp t c p.k
+    if lostAt cmp t c && cursorLostReseeks then seekFirstGreater cmp t c p.k
     else { c with pos := nextCore t p }
 
 /-- `cursor.Prev` -/
@@ -556,10 +569,10 @@ def cursorPrev (cmp : K → K → Int) (t : Tree K V) (c : Cursor K) : Cursor K 
   match c.pos with
   | none => c
   | some p =>
-    if lostAt cmp t c then seekLastLess cmp t c p.k
+    if lostAt cmp t c && cursorLostReseeks then seekLastLess cmp t c p.k
     else { c with pos := prevCore t p }
 
-/-! ## Iterators: `forwardIterator` / `backwardIterator` wrapped in `iterator.While` -/
+/-! ## Iterators: `forwardIterator` / `backwardIterator` with their in-range predicate -/
 
 def evalOp : CmpOp → Int → Bool
   | .lt, c => decide (c < 0)
@@ -570,8 +583,10 @@ def evalOp : CmpOp → Int → Bool
 structure Iter (K : Type) where
   c : Cursor K
   fwd : Bool
-  /-- the `While` predicate `compare(pair.Key, key) op 0`; `none` = the bare cursor iterator -/
+  /-- the in-range predicate `compare(k, key) op 0` installed by `ForwardWhile` / `BackwardWhile`;
+  `none` = `Forward()` / `Backward()` (`inRange == nil`) -/
   stop : Option (CmpOp × K)
+  /-- the field `done`: the predicate has failed once -/
   done : Bool
 
 /-- `valueUnchecked`: `c.curr.values[c.i]` -/
@@ -580,7 +595,19 @@ def valueAt (t : Tree K V) (p : Pos K) : Option V :=
   | none => none
   | some x => (x.kvs[p.i]?).map (·.2)
 
-/-- `forwardIterator.Next` / `backwardIterator.Next` -/
+/-- the re-seek at the top of `forwardIterator.Next` / `backwardIterator.Next`:
+`if iter.c.lost() { iter.c.SeekFirstGreaterOrEqual(iter.c.Key()) }` (backward: `SeekLastLessOrEqual`) -/
+def iterReseek (cmp : K → K → Int) (t : Tree K V) (fwd : Bool) (c : Cursor K) : Cursor K :=
+  match c.pos with
+  | none => c
+  | some p =>
+    if lostAt cmp t c && iterReseeks then
+      (if fwd then seekFirstGreaterOrEqual cmp t c p.k else seekLastLessOrEqual cmp t c p.k)
+    else c
+
+/-- `forwardIterator.Next` / `backwardIterator.Next` of an iterator without predicate (`Forward()` /
+`Backward()`), as one function of the cursor. (Reference formulation: the bounded iterators used to be this
+wrapped in `iterator.While`; `Proofs/TreeWhile.lean` shows that formulation equivalent to `iterNext`.) -/
 def rawNext (cmp : K → K → Int) (t : Tree K V) (fwd : Bool) (c : Cursor K) : Cursor K × Option (K × Option V) :=
   let c1 :=
     match c.pos with
@@ -596,21 +623,39 @@ def rawNext (cmp : K → K → Int) (t : Tree K V) (fwd : Bool) (c : Cursor K) :
     let c2 := if fwd then cursorNext cmp t c1 else cursorPrev cmp t c1
     (c2, some (p.k, v))
 
-/-- `Next` of the iterator returned by `Range` / `RangeReverse`. -/
+/-- `if iter.done` -/
+def iterChecksDone (fwd done : Bool) : Bool := if fwd then fwdChecksDone done else bwdChecksDone done
+/-- `if iter.inRange != nil && !iter.inRange(k)` -/
+def iterStops (fwd hasPred inRange : Bool) : Bool := if fwd then fwdStops hasPred inRange else bwdStops hasPred inRange
+/-- the two early exits return `zero, false` and the cut-off sets `iter.done = true` -/
+def iterCutoffSticky (fwd : Bool) : Bool := if fwd then fwdCutoffSticky else bwdCutoffSticky
+
+/-- `Next` of the iterator returned by `Range` / `RangeReverse` (`forwardIterator.Next` /
+`backwardIterator.Next`): the sticky cut-off, the re-seek of a lost cursor, the end of the tree, the key,
+**the in-range test on the key, and only then the value read** and the cursor move. -/
 def iterNext (cmp : K → K → Int) (t : Tree K V) (it : Iter K) : Iter K × Option (K × Option V) :=
-  match it.stop with
-  | none =>
-    let r := rawNext cmp t it.fwd it.c
-    ({ it with c := r.1 }, r.2)
-  | some (op, key) =>
-    if whileChecksDone it.done then (it, none)
-    else
-      let r := rawNext cmp t it.fwd it.c
-      match r.2 with
-      | none => ({ it with c := r.1 }, none)
-      | some (k, v) =>
-        if whileStops (evalOp op (cmp k key)) then ({ it with c := r.1, done := whileSticky || it.done }, none)
-        else ({ it with c := r.1 }, some (k, v))
+  if iterChecksDone it.fwd it.done then (it, none)
+  else
+    let c1 := iterReseek cmp t it.fwd it.c
+    match c1.pos with
+    | none => ({ it with c := c1 }, none)
+    | some p =>
+      let inRange := match it.stop with
+        | some (op, key) => evalOp op (cmp p.k key)
+        | none => true
+      if iterStops it.fwd it.stop.isSome inRange then
+        ({ it with c := c1, done := iterCutoffSticky it.fwd || it.done }, none)
+      else
+        let c2 := if it.fwd then cursorNext cmp t c1 else cursorPrev cmp t c1
+        -- `v := iter.c.valueUnchecked()` precedes `iter.c.Next()` (else the value of the *next* entry would be read)
+        let v := if iterReadsThenSteps then valueAt t p else c2.pos.bind (valueAt t)
+        ({ it with c := c2 }, some (p.k, v))
+
+/-- **`Next` panics** (nil dereference): past the `done` check the first thing `Next` does is `iter.c.lost()`;
+on an iterator that has run off the edge (`curr == nil`: exhausted, or created on an empty range) that call
+must not look through `curr`. -/
+def iterNextPanics (t : Tree K V) (it : Iter K) : Bool :=
+  !iterChecksDone it.fwd it.done && it.c.pos.isNone && lostDerefsNil it.c.gen t.gen
 
 /-- a `tree.Bound`: `kind = none` is the zero `Bound{}` (the code panics "unknown bound") -/
 structure Bound (K : Type) where
@@ -648,9 +693,9 @@ def mkIter (cmp : K → K → Int) (t : Tree K V)
       | some bk2 =>
         match stopTbl.2.find? (fun r => r.1 == bk2) with
         | none => none
-        | some (_, .all fwd) => some { c := c, fwd := fwd, stop := none, done := false }
+        | some (_, .all fwd) => some { c := c, fwd := fwd, stop := none, done := !iterCtorsFresh }
         | some (_, .while fwd op s) =>
-          some { c := c, fwd := fwd, stop := some (op, (pickSide s lo hi).key), done := false }
+          some { c := c, fwd := fwd, stop := some (op, (pickSide s lo hi).key), done := !iterCtorsFresh }
 
 def range (cmp : K → K → Int) (t : Tree K V) (lo hi : Bound K) : Option (Iter K) :=
   mkIter cmp t rangeSeek rangeStop lo hi
